@@ -15,7 +15,10 @@ RULE = ("three op lines per case on the real `get_instance_handle_from_dynamic_d
         "key member changed; FOLLOW-UP 3: one case in five has an OPTIONAL member of structure type whose structure carries key "
         "members of its own (top level or inside a non-optional nested structure; present and absent values), and in two "
         "thirds of those v2 = v1 with that optional structure removed / added / changed - it is not part of the key, the "
-        "handle must not change and an absent one must not prevent the handle; a case is non-trivial when the type has a key member inside a nested structure or more than "
+        "handle must not change and an absent one must not prevent the handle; FOLLOW-UP 5: one case in five has a KEY member of "
+        "structure type whose structure carries key flags of its own, the first with the member id (and mostly the type) of "
+        "an EARLIER outer key member, and in two thirds of those v2 differs from v1 only in that earlier outer key member - "
+        "the handles must differ (a key member is copied whole, not flattened); a case is non-trivial when the type has a key member inside a nested structure or more than "
         "one key member; distinct by canonical op lines")
 ASSUMPTIONS = [
     "MD5 collisions are not expected among the generated values (a collision would be reported as a violation)",
@@ -118,7 +121,8 @@ def gen_cases(ctx):
         collide = k % 10 == 0
         exotic = k % 13 == 0
         optkey = k % 5 == 1      # follow-up 3: an optional member whose structure type has key members of its own
-        t = X.gen_keyed_type(r, ver=ver, collide=collide, exotic=exotic, optkey=optkey)
+        keystruct = k % 5 == 2   # follow-up 5: a KEY member of structure type with key members of its own (overlapping ids)
+        t = X.gen_keyed_type(r, ver=ver, collide=collide, exotic=exotic, optkey=optkey, keystruct=keystruct)
         kn = X.Knobs(ver=ver)
         v1 = X.gen_value(r, t, kn, ver=ver)
         c = r.below(3)
@@ -128,6 +132,12 @@ def gen_cases(ctx):
             if v2 is not None:
                 ctx.count("pair: optional keyed structure " + ("removed" if X.val_text(v2).count("_") > X.val_text(v1).count("_")
                                                                else "added / changed"))
+        elif keystruct and X.key_struct_paths(t) and r.chance(2, 3):
+            # only the EARLIER outer key member changes (the one whose id an inner key member of the key structure has):
+            # another instance, the handles must differ
+            v2 = X.change_at(r, t, v1, r.choice(X.key_struct_paths(t))[0], ver)
+            if v2 is not None:
+                ctx.count("pair: only the outer key member changed whose id an inner key of a key structure has")
         else:
             v2 = v1 if c == 0 else X.mutate_value(r, t, v1, key=(c == 2))
         if v2 is None:
@@ -139,6 +149,12 @@ def gen_cases(ctx):
 
 
 CORPUS = [
+    # follow-up 5 (seed C12_c): a KEY member of structure type is copied whole, its own key flags are irrelevant:
+    # Sensor{@key id (0); @key location (1): Location{@key zone (0); floor (2)}} - (7,{3,1}) and (8,{3,1}) are two instances
+    ["kh SF{0k:u32,1k:SF{0k:u32,2:u8},3:u16} {7,{3,1},5}", "kh SF{0k:u32,1k:SF{0k:u32,2:u8},3:u16} {8,{3,1},5}",
+     "khrt 1 le SF{0k:u32,1k:SF{0k:u32,2:u8},3:u16} {7,{3,1},5}"],
+    ["kh SA{0k:u8,1k:SF{0k:u16,2k:u8}} {7,{3,1}}", "kh SA{0k:u8,1k:SF{0k:u16,2k:u8}} {7,{3,1}}",
+     "khrt 2 be SA{0k:u8,1k:SF{0k:u16,2k:u8}} {7,{3,1}}"],
     # follow-up 3: an OPTIONAL nested structure with key members of its own contributes nothing to the key:
     # present / absent / other content -> same handle; absent -> still a handle
     ["kh SF{0k:u8,5o:SF{6k:u8,7k:u16},2:u32} {5,{1,2},7}", "kh SF{0k:u8,5o:SF{6k:u8,7k:u16},2:u32} {5,_,7}",
@@ -183,6 +199,11 @@ def run(ctx):
         except ValueError:
             pass
         ctx.count("pair: same value" if c.lines[0] == c.lines[1] else "pair: different value")
+        try:
+            if X.key_struct_paths(X.parse_ty(ty)):
+                ctx.count("type has a key member of structure type whose inner key id meets an earlier outer key id")
+        except ValueError:
+            pass
         try:
             if X.opt_keyed_struct_paths(X.parse_ty(ty)):
                 ctx.count("type has an optional structure member with key members of its own")
@@ -229,7 +250,8 @@ LEVEL_TEXT = ("Kernel-checked Lean theorems: C11_same_key_same_handle and C11_no
               "members give equal handles, members outside the key are irrelevant), C11_optional_member_irrelevant (every type, "
               "value, optional non-key member, replacement value incl. none: key projection, handle and the outcome of the real "
               "function unchanged - optional nested structures with key members of their own contribute nothing), "
-              "C11_optional_struct_not_in_key_holder_type, C11_iff_partial (for all keyed structures and "
+              "C11_optional_struct_not_in_key_holder_type, C11_key_struct_member_not_flattened (every type and value: the key flags inside "
+              "the type of a key member change neither key-holder type, key projection, handle nor outcome), C11_iff_partial (for all keyed structures and "
               "value pairs inside the decidable predicate wfKey: handles equal iff key members equal or the two key serializations "
               "collide in pad16/MD5 - the collision is spelled out, MD5 stays opaque; injectivity of the big-endian key "
               "serialization follows from the C09 round trip with remainder), C11_writer_reader_agree (writer handle = handle the "
